@@ -5,6 +5,7 @@ from __future__ import annotations
 
 import copy
 import itertools
+import math
 import multiprocessing as mp
 import os
 import random
@@ -179,7 +180,10 @@ def extra_c18(seed, tier, log):
                 failures.append(_fail("C18", a, f"psi=1 / restoration time of one step differs from the base model: {diffs[0]}",
                                       sig="psi1-differs-from-base"))
         else:
-            diffs = compare_runs(ta, tb, bitwise=False, tol=1e-9)
+            # "the same orders (to within rounding)": compare orders, production, capacity, overproduction
+            # (unmet demand is a difference of equal quantities: its rounding noise has no relative scale)
+            diffs = compare_runs(ta, tb, bitwise=False, tol=1e-9,
+                                 records=["intermediate_demand", "production_realised", "production_capacity", "overproduction"])
             if diffs:
                 failures.append(_fail("C18", a, f"order variants differ in an event-free run: {diffs[0]}", sig="alt-noalt-differ"))
     return dict(failures=failures, evaluations=len(jobs), scenarios=scenarios, obligations=[],
@@ -248,6 +252,8 @@ def shuffled_twin(s, rng):
     rng.shuffle(yperm)
     t["Z"] = [[t["Z"][i][j] for j in perm] for i in perm]
     t["Y"] = [[t["Y"][i][c] for c in yperm] for i in perm]
+    if t.get("x") is not None:
+        t["x"] = [t["x"][i] for i in perm]
     t["row_labels"] = [t["row_labels"][i] for i in perm]
     t["col_labels"] = [t["col_labels"][i] for i in perm]
     t["ycol_labels"] = [t["ycol_labels"][c] for c in yperm]
@@ -804,6 +810,8 @@ def extra_c13(seed, tier, log):
             meta.append(("unit", s, b, f2))
         lam = rng.choice([1e-2, 10.0, 1e3])
         b = copy.deepcopy(s)
+        if s["table"].get("x") is not None:
+            b["table"]["x"] = [v * lam for v in s["table"]["x"]]
         b["table"]["Z"] = [[v * lam for v in r] for r in s["table"]["Z"]]
         b["table"]["Y"] = [[v * lam for v in r] for r in s["table"]["Y"]]
         cap = b["model"].get("capital")
@@ -831,6 +839,15 @@ def extra_c13(seed, tier, log):
         if ta.get("error") is not None or ta.get("crashed") or tb.get("crashed"):
             continue
         lam = par if kind == "scale" else 1.0
+        # the ledgers are rounded to a quantum fixed by the model's unit; it is not scale-free, so the
+        # comparison allows for it relative to the smallest damage at stake
+        mu = s["model"]["monetary_factor"]
+        quantum = 10.0 ** (-(int(math.log10(mu)) + 1))
+        dmin = min([v * (e.get("emf") or 1) / mu for e in s["events"] if e["type"] in ("rebuild", "recovery")
+                    for _, v in e["impact"]] or [1.0])
+        slack = 20 * quantum / max(dmin, 1e-300)
+        if slack > 1e-3:
+            continue        # damages comparable to the rounding quantum: nothing can be concluded
         for name, x in (ta.get("records") or {}).items():
             y = (tb.get("records") or {}).get(name)
             if x is None or y is None or name in ("limiting_inputs", "inputs_stocks"):
@@ -838,7 +855,7 @@ def extra_c13(seed, tier, log):
             f = lam if name in MON else 1.0
             xs, ys = np.nan_to_num(x.astype(float)) * f, np.nan_to_num(y.astype(float))
             m = float(max(np.abs(xs).max(), np.abs(ys).max())) if xs.size else 0.0
-            tol = 1e-6 if kind == "scale" else 1e-7
+            tol = (1e-6 if kind == "scale" else 1e-7) + slack
             if not np.all(np.abs(xs - ys) <= tol * np.maximum(np.maximum(np.abs(xs), np.abs(ys)), m * 1e-2)):
                 idx = np.unravel_index(int(np.argmax(np.abs(xs - ys))), xs.shape)
                 what = (f"the same event expressed with monetary factor {par} gives a different simulation"
